@@ -53,6 +53,18 @@ func (b Binomial) LogProb(x float64) float64 {
 	if x < 0 || x > b.N || math.Floor(x) != x {
 		return math.Inf(-1)
 	}
+	switch {
+	case b.P == 0:
+		if x == 0 {
+			return 0
+		}
+		return math.Inf(-1)
+	case b.P == 1:
+		if x == b.N {
+			return 0
+		}
+		return math.Inf(-1)
+	}
 	lb := combin.LogGeneralizedBinomial(b.N, x)
 	return lb + x*math.Log(b.P) + (b.N-x)*math.Log(1-b.P)
 }
